@@ -327,7 +327,11 @@ func verifC29Generate(seed uint64, cases int, minFee uint64, maxGroup int) []str
 				if r.Bool() {
 					i := r.Intn(n)
 					m[i].Group = crypto.Digest{}
-					lines = append(lines, verifC29Line(fmt.Sprintf("gzero:%d", i), m))
+					if n == 1 {
+						lines = append(lines, verifC29Line("single", m)) // a lone transaction without group id is an ordinary transaction
+					} else {
+						lines = append(lines, verifC29Line(fmt.Sprintf("gzero:%d", i), m))
+					}
 				} else {
 					for i := range m {
 						m[i].Group = crypto.Digest{}
